@@ -6,7 +6,7 @@ trap 'rm -rf "$D" "$V"' EXIT
 rsync -a --exclude .git /repo/ "$D/"
 export PATH=/opt/veriftools/go1.26.8/bin:$PATH GOFLAGS=-mod=mod GOPROXY=off GOTOOLCHAIN=local CGO_ENABLED=0
 cd "$D"
-for r in 'coord -> cpt' 'subsetGlyphID -> sid' 'dpmm -> pxPerMm' 'xmin -> lox' 'ymax -> hiy' 'strokeUnsupported -> noNative' 'sinphi -> sphi' 'cosphi -> cphi' 'zindices -> zs' 'copied -> didCopy' 'startTheta -> thetaFrom' 'i0 -> idx0' 'pos0 -> phase0' 'states -> segs' 'rhsJoinIndex -> rji' 'lineCap -> capCode' 'lineJoin -> joinCode' 'curSeg -> segNo' 'objOffset -> off' 'dashOffset -> dOff' 'tsub -> trel' 'pOverlaps -> pTouch' 'qOverlaps -> qTouch' 'belowFills -> fillsBelow' 'aboveFills -> fillsAbove' 'lowerWindings -> wLo' 'upperOtherWindings -> woHi'; do
+for r in 'coord -> cpt' 'subsetGlyphID -> sid' 'dpmm -> pxPerMm' 'xmin -> lox' 'ymax -> hiy' 'strokeUnsupported -> noNative' 'sinphi -> sphi' 'cosphi -> cphi' 'zindices -> zs' 'copied -> didCopy' 'startTheta -> thetaFrom' 'i0 -> idx0' 'pos0 -> phase0' 'states -> segs' 'rhsJoinIndex -> rji' 'lineCap -> capCode' 'lineJoin -> joinCode' 'curSeg -> segNo' 'objOffset -> off' 'dashOffset -> dOff' 'tsub -> trel' 'pOverlaps -> pTouch' 'qOverlaps -> qTouch' 'belowFills -> fillsBelow' 'aboveFills -> fillsAbove' 'lowerWindings -> wLo' 'upperOtherWindings -> woHi' 'thetaTop -> angY' 'thetaRight -> angX' 'dashArray -> dashArr' 'totalLength -> period' 'widths -> advs' 'first -> subStart' 'open -> pending' 'fun -> fnName' 'hw -> halfW' 'prevCmd -> lastCmd' 'repeat -> again' 'keepPath -> keep' 'sfntSubset -> sub' 'glyphIDs -> gids'; do
   gofmt -l -r "$r" -w *.go text/*.go renderers/pdf/*.go renderers/ps/*.go renderers/svg/*.go renderers/rasterizer/*.go >/dev/null 2>&1
 done
 go build ./ ./text ./renderers/pdf ./renderers/ps ./renderers/svg ./renderers/rasterizer || { echo "RENAMED COPY DOES NOT COMPILE"; exit 2; }
